@@ -442,8 +442,9 @@ def rule_x4(text, log):
     return t
 
 
-def rule_x9(text, log):
-    """binary operators on reference operands (&a op &b, x op &b) -> method call form"""
+def rule_x9(text, log, names=None):
+    """binary operators on reference operands (&a op &b, x op &b) -> method call form; with `x9=a,b` also `a op b` for the
+    listed local names (variables that hold references)"""
     ops = {'+': 'add', '-': 'sub', '*': 'mul'}
     pat = re.compile(r'(?<![A-Za-z0-9_)\]])(&?[a-z_][A-Za-z0-9_]*) ([-+*]) (&[a-z_][A-Za-z0-9_]*|self)\b(?!\s*[.(\[])')
 
@@ -465,6 +466,15 @@ def rule_x9(text, log):
         log.append({'rule': 'X9', 'before': mm.group(0), 'after': new})
         return new
     t = pat2.sub(rep2, t)
+    if names:
+        alt = '|'.join(re.escape(n) for n in names)
+        pat3 = re.compile(r'(?<![A-Za-z0-9_.)\]])(%s) ([-+*]) (%s)\b(?!\s*[.(\[])' % (alt, alt))
+
+        def rep3(mm):
+            new = '(%s).%s(%s)' % (mm.group(1), ops[mm.group(2)], mm.group(3))
+            log.append({'rule': 'X9', 'before': mm.group(0), 'after': new})
+            return new
+        t = pat3.sub(rep3, t)
     return t
 
 
@@ -848,7 +858,8 @@ def apply_rules(text, flags, log, path):
     if 'x8' in flags:
         text = rule_x8(text, mylog)
     if 'x9' in flags:
-        text = rule_x9(text, mylog)
+        v9 = flags['x9']
+        text = rule_x9(text, mylog, v9.split(',') if isinstance(v9, str) else None)
     if 'x12' in flags:
         text = rule_x12(text, mylog)
     if 'x13' in flags:
